@@ -1066,6 +1066,9 @@ func (e *Evaluator) evalRules(rules []*Rule) error {
 		match := true
 		if rule.Pattern != nil {
 			cell, err := e.evalExpr(rule.Pattern)
+			if err == errNext {
+				return nil
+			}
 			if err != nil {
 				return err
 			}
@@ -1170,6 +1173,9 @@ func EvalProgram(progSrc string, files []InputFile, rootSelectors []string, stdo
 		verifRule(&ev, "B", rule)
 		ev.ruleRoot = NewCell(NewValue(nil))
 		if err := ev.evalStatement(rule.Body); err != nil {
+			if err == errNext {
+				continue
+			}
 			if err == errExit {
 				return &ev, nil
 			}
@@ -1213,6 +1219,9 @@ func EvalProgram(progSrc string, files []InputFile, rootSelectors []string, stdo
 					verifRule(&ev, "BF", rule)
 					ev.ruleRoot = rootCell
 					if err := ev.evalStatement(rule.Body); err != nil {
+						if err == errNext {
+							continue
+						}
 						if err == errExit {
 							return &ev, nil
 						}
@@ -1234,6 +1243,9 @@ func EvalProgram(progSrc string, files []InputFile, rootSelectors []string, stdo
 					verifRule(&ev, "EF", rule)
 					ev.ruleRoot = NewCell(rootVal)
 					if err := ev.evalStatement(rule.Body); err != nil {
+						if err == errNext {
+							continue
+						}
 						if err == errExit {
 							return &ev, nil
 						}
@@ -1249,6 +1261,9 @@ func EvalProgram(progSrc string, files []InputFile, rootSelectors []string, stdo
 		verifRule(&ev, "E", rule)
 		ev.ruleRoot = NewCell(NewValue(nil))
 		if err := ev.evalStatement(rule.Body); err != nil {
+			if err == errNext {
+				continue
+			}
 			if err == errExit {
 				return &ev, nil
 			}
